@@ -90,6 +90,44 @@ def split_binop(s, ops):
     return None
 
 
+def split_ternary(s):
+    """'c?x:y' at top level -> (c, x, y) (the colon of a `sizeof:N` token is not a separator); None otherwise."""
+    s = strip_parens(s)
+    depth = 0
+    q = None
+    for i, ch in enumerate(s):
+        if ch in '([':
+            depth += 1
+        elif ch in ')]':
+            depth -= 1
+        elif depth == 0 and ch == '?' and q is None:
+            q = i
+        elif depth == 0 and ch == ':' and q is not None and not s[:i].endswith('sizeof') and s[i - 1:i + 2].count(':') == 1:
+            return s[:q], s[q + 1:i], s[i + 1:]
+    return None
+
+
+def min_operands(s):
+    """A conditional that selects the smaller of its two operands - (a>b)?b:a, (a>=b)?b:a, (a<b)?a:b, (a<=b)?a:b - is min(a,b): returns (a, b) or None."""
+    t = split_ternary(s)
+    if not t:
+        return None
+    c, x, y = (strip_parens(v) for v in t)
+    for ops, swap in (('>', True), ('<', False)):
+        sb = split_binop(c, ops)
+        if sb:
+            a, b = strip_parens(sb[0]), strip_parens(sb[2])
+        else:
+            m = re.fullmatch(r'(.+?)%s=(.+)' % ops, c)
+            if not m or split_ternary(c):
+                continue
+            a, b = strip_parens(m.group(1)), strip_parens(m.group(2))
+        lo, hi = (b, a) if swap else (a, b)     # value chosen when the condition holds / does not hold
+        if x == lo and y == hi:
+            return a, b
+    return None
+
+
 def entails_le(n, cap, facts, env=None, depth=0):
     """Do the facts entail n <= cap ?"""
     n, cap = strip_parens(n), strip_parens(cap)
@@ -110,6 +148,8 @@ def entails_le(n, cap, facts, env=None, depth=0):
             return True
         if _NUM.match(a) and _NUM.match(cap) and int(a) <= int(cap):
             return True
+        if a.startswith('sizeof:') and _NUM.match(a[7:]) and _NUM.match(cap) and int(a[7:]) <= int(cap):     # sizeof:N is the constant N
+            return True
         succ = set(norm.get(a, ()))
         if _NUM.match(a):
             succ.update(k for k in norm if _NUM.match(k) and int(a) <= int(k))
@@ -121,6 +161,10 @@ def entails_le(n, cap, facts, env=None, depth=0):
         sb = split_binop(a, '/')
         if sb and _NUM.match(strip_parens(sb[2])) and int(strip_parens(sb[2])) >= 1:
             succ.add(strip_parens(sb[0]))
+        mo = min_operands(a)
+        if mo:
+            # min(a,b) <= cap if one of the operands is: both are followed (the search is a reachability over <=, so either suffices)
+            succ.update(mo)
         pc = parse_call(a)
         if pc and pc[0] in ('min',):
             succ.update(strip_parens(x) for x in pc[1])
